@@ -39,7 +39,7 @@ void harness_case(Dec &d, Case &c) {
     c.desc = std::string(kSvcName[svc]) + " " + uri + " explicit=" + (exU ? "U" : "-") + (exK ? "K" : "-"); c.nontrivial = embed || mixed;
     c.cls(std::string("scheme:") + base); c.cls(std::string("service:") + kSvcName[svc]); if (embed) c.cls("embedded-credentials"); if (mixed) c.cls("mixed-case-scheme"); if (v6) c.cls("host:ipv6"); c.cls("explicit:" + std::string(exU ? "U" : "-") + (exK ? "K" : "-")); if (port == 65535 || port == 1) c.cls("port:boundary");
 
-    Ctx ctx; int setRes, opRes = KSI_UNKNOWN_ERROR; Server srv; srv.respond = [](const Bytes &, int) { return Bytes(); }; srv.closeAfterReply = true; srv.attach();
+    bool asyncSecond = false; Ctx ctx; int setRes, opRes = KSI_UNKNOWN_ERROR; Server srv; srv.respond = [](const Bytes &, int) { return Bytes(); }; srv.closeAfterReply = true; srv.attach();
     const char *lu = exU ? xu.c_str() : nullptr, *lk = exK ? xk.c_str() : nullptr; Bytes doc(33, 7); doc[0] = 1; KSI_AsyncService *as = nullptr;
     if (!async) {
         setRes = aggr ? KSI_CTX_setAggregator(ctx, uri.c_str(), lu, lk) : KSI_CTX_setExtender(ctx, uri.c_str(), lu, lk);
@@ -48,11 +48,12 @@ void harness_case(Dec &d, Case &c) {
                 if (opRes == KSI_OK) { KSI_ExtendResp *r = nullptr; opRes = KSI_RequestHandle_getExtendResponse(h, &r); KSI_ExtendResp_free(r); } KSI_RequestHandle_free(h); KSI_ExtendReq_free(rq); KSI_Integer_free(st); } }
     } else {
         if (aggr) KSI_SigningAsyncService_new(ctx, &as); else KSI_ExtendingAsyncService_new(ctx, &as); setRes = KSI_AsyncService_setEndpoint(as, uri.c_str(), lu, lk);
-        if (setRes == KSI_OK) { KSI_AsyncHandle *hnd = nullptr; int r;
+        // on the HTTP transport a second request follows once the first has come back (request objects of the client are recycled): it must go to the same URL
+        if (setRes == KSI_OK) for (int rep = 0; rep < (si <= 2 ? 2 : 1) && (rep == 0 || opRes == KSI_OK); rep++) { KSI_AsyncHandle *hnd = nullptr; int r;
             if (aggr) { KSI_AggregationReq *rq = nullptr; KSI_AggregationReq_new(ctx, &rq); KSI_DataHash *dh = nullptr; KSI_DataHash_fromImprint(ctx, doc.data(), doc.size(), &dh); KSI_AggregationReq_setRequestHash(rq, dh); r = KSI_AsyncAggregationHandle_new(ctx, rq, &hnd); if (r != KSI_OK) KSI_AggregationReq_free(rq); }
             else { KSI_ExtendReq *rq = nullptr; KSI_ExtendReq_new(ctx, &rq); KSI_Integer *st = nullptr; KSI_Integer_new(ctx, 1500000000, &st); KSI_ExtendReq_setAggregationTime(rq, st); r = KSI_AsyncExtendHandle_new(ctx, rq, &hnd); if (r != KSI_OK) KSI_ExtendReq_free(rq); }
             if (r == KSI_OK) { r = KSI_AsyncService_addRequest(as, hnd); if (r != KSI_OK) KSI_AsyncHandle_free(hnd); }
-            if (r == KSI_OK) { KSI_AsyncHandle *out = nullptr; size_t w = 0; for (int i = 0; i < 6 && !out; i++) { KSI_AsyncService_run(as, &out, &w); sim::net().now += 1; } KSI_AsyncHandle_free(out); } opRes = r; }
+            if (r == KSI_OK) { KSI_AsyncHandle *out = nullptr; size_t w = 0; for (int i = 0; i < (si <= 2 ? 30 : 6) && !out; i++) { KSI_AsyncService_run(as, &out, &w); sim::net().now += 1; } if (rep == 1) { asyncSecond = true; c.cls("async-http:second-request-after-the-first-came-back"); } KSI_AsyncHandle_free(out); } opRes = r; }
     }
     // ---- what reached the transport boundary
     auto &resolves = sim::net().resolves; auto &https = sim::http().requests; Bytes reqBytes; if (!https.empty()) reqBytes = https[0].body; else if (!sim::net().conns.empty()) reqBytes = sim::net().conns[0]->fromClient;
@@ -70,6 +71,8 @@ void harness_case(Dec &d, Case &c) {
         if (!resolves.empty()) VF_FAIL(c, "C20:dispatch:http-scheme-went-to-tcp", "an HTTP scheme caused name resolution for TCP (" + c.desc + ")");
         else if (https.empty()) VF_FAIL(c, "C20:dispatch:no-http-transfer", "no HTTP transfer was started (" + c.desc + ")");
         else if (https[0].url != wantUrl) VF_FAIL(c, v6 && https[0].url.find('[') == std::string::npos ? "C20:url:ipv6-brackets-lost" : (https[0].url.find(ek) != std::string::npos ? "C20:url:credentials-leaked" : "C20:url:differs"), "URL handed to the HTTP library is '" + https[0].url + "', expected '" + wantUrl + "'");
+        else if (asyncSecond && https.size() < 2) VF_FAIL(c, "C20:dispatch:no-http-transfer:second-request", "the second request on the same service started no HTTP transfer (" + c.desc + ")");
+        else if (asyncSecond && https[1].url != wantUrl) VF_FAIL(c, "C20:url:differs:second-request", "URL handed to the HTTP library for the second request is '" + https[1].url + "', expected '" + wantUrl + "' (" + c.desc + ")");
         else checkCreds(wantLogin, wantKey);
     } else if (expectTcp) {
         std::string wantHost = v6 ? host.substr(1, host.size() - 2) : host;
@@ -89,6 +92,12 @@ void harness_case(Dec &d, Case &c) {
     if (!c.fail && ksiScheme && embed) { // the key and the user-info never appear in what the transport got
         for (auto &h : https) if (h.url.find(ek) != std::string::npos || h.url.find(eu + ":") != std::string::npos) VF_FAIL(c, "C20:url:credentials-leaked", "embedded credentials appear in the URL '" + h.url + "'");
         for (auto &r : resolves) if (r.host.find(ek) != std::string::npos || r.host.find('@') != std::string::npos) VF_FAIL(c, "C20:tcp:credentials-leaked", "embedded credentials appear in the resolved host '" + r.host + "'"); }
+    // the public splitter on the same URI: the port is reported as given, and as 0 when the URI has none - whatever the caller's variable held before
+    if (!c.fail && si != 4) { char *sc = nullptr, *ho = nullptr, *pa = nullptr; unsigned po = 7777; int rs = KSI_UriSplitBasic(uri.c_str(), &sc, &ho, &po, &pa);
+        if (rs != KSI_OK) VF_FAIL(c, "C20:split:well-formed-uri-refused", "KSI_UriSplitBasic refused '" + uri + "' res=" + num(rs));
+        else if (po != port) VF_FAIL(c, port ? "C20:split:port-differs" : "C20:split:absent-port-not-reported-as-0", "KSI_UriSplitBasic reports port " + num(po) + " for '" + uri + "', the URI " + (port ? "carries " + std::to_string(port) : std::string("has no port (0 is documented)")));
+        else if (!ho || (v6 ? std::string(ho).find(host.substr(1, host.size() - 2)) == std::string::npos : host != ho)) VF_FAIL(c, "C20:split:host-differs", std::string("KSI_UriSplitBasic reports host '") + (ho ? ho : "(null)") + "' for '" + uri + "'");
+        KSI_free(sc); KSI_free(ho); KSI_free(pa); c.cls(port ? "split:port-present" : "split:port-absent"); }
     if (as) KSI_AsyncService_free(as);
 }
 void harness_exhaustive(int, int) {}
